@@ -211,6 +211,12 @@ type initScenario struct {
 	TLS12       bool     `json:"tls12,omitempty"`
 	Chunk       int      `json:"chunk,omitempty"`
 	Identity    string   `json:"identity,omitempty"`
+	// CancelAt k > 0: the context given to NewSession is cancelled right after
+	// the client's k-th SASL element (<auth/>, then each <response/>) has been
+	// written, i.e. at a step boundary of the client loop.  NoDeadline hides the
+	// transport's deadline methods, so that reads go on succeeding afterwards.
+	CancelAt   int  `json:"cancel_at,omitempty"`
+	NoDeadline bool `json:"no_deadline,omitempty"`
 
 	// filled in by the run
 	Log      []entry `json:"delivered,omitempty"`
@@ -543,7 +549,37 @@ func genInit(r *rand.Rand) *initScenario {
 			}
 		}
 	}
+	// cancellation at a step boundary (lock-step transport only)
+	if !sc.TLS && r.Intn(6) == 0 {
+		sc.CancelAt = 1 + r.Intn(3)
+		sc.NoDeadline = r.Intn(5) < 3
+		if r.Intn(4) > 0 { // a multi-step mechanism
+			m := saslpeer.Names[1+r.Intn(2)]
+			sc.ClientMechs, sc.Advertised = []string{m}, []string{m}
+		}
+		if r.Intn(2) == 0 {
+			// legitimate messages up to the boundary, then what a peer might say to
+			// a client that has stopped stepping the mechanism
+			var script []string
+			for i := 1; i < sc.CancelAt; i++ {
+				script = append(script, "L")
+			}
+			after := []string{"S0", "S=", "S0", "Sg", "Ls", "L", "Lc", "F", "C0"}
+			script = append(script, after[r.Intn(len(after))])
+			sc.Script = append(script, sc.Script...)
+			if len(sc.Script) > 6 {
+				sc.Script = sc.Script[:6]
+			}
+		}
+	}
 	return sc
+}
+
+func lastOf(l []string) string {
+	if len(l) == 0 {
+		return ""
+	}
+	return l[len(l)-1]
 }
 
 func without(l []string, x string) []string {
@@ -623,6 +659,7 @@ func runInitiator(c *core.Case, sc *initScenario) {
 
 	var s *xmpp.Session
 	var err error
+	cancelFired, cancelAtDelivered := false, 0
 	lockstep := !sc.TLS
 	if !sc.TLS {
 		conn := bufconn.NewScripted(func(w []byte) ([]byte, bool) { return adv.feed(w, true) })
@@ -630,8 +667,33 @@ func runInitiator(c *core.Case, sc *initScenario) {
 			k := sc.Chunk
 			conn.SetChunker(func(avail int) int { return k })
 		}
+		ctx, cancel := context.WithCancel(context.Background())
+		defer cancel()
+		if sc.CancelAt > 0 {
+			c.Count("init_cancel_cases", 1)
+			if sc.NoDeadline {
+				c.Count("init_cancel_cases_no_deadline_transport", 1)
+			} else {
+				c.Count("init_cancel_cases_deadline_transport", 1)
+			}
+			conn.SetAfterWrite(func(int) {
+				if cancelFired {
+					return
+				}
+				w := conn.Written()
+				if bytes.Count(w, []byte("<auth"))+bytes.Count(w, []byte("<response")) >= sc.CancelAt {
+					cancelFired = true
+					cancelAtDelivered = len(adv.delivered())
+					cancel()
+				}
+			})
+		}
+		var rw io.ReadWriter = conn
+		if sc.NoDeadline {
+			rw = bufconn.NoDeadline{C: conn}
+		}
 		c.Guard("NewSession", func() {
-			s, err = xmpp.NewSession(context.Background(), location, origin, conn, xmpp.Secure, negotiatorFor(feat))
+			s, err = xmpp.NewSession(ctx, location, origin, rw, xmpp.Secure, negotiatorFor(feat))
 		})
 		conn.Close()
 	} else {
@@ -730,6 +792,21 @@ func runInitiator(c *core.Case, sc *initScenario) {
 	sc.Log = log
 	for _, e := range log {
 		c.Count("init_action_"+e.Kind, 1)
+	}
+	if cancelFired {
+		c.Count("init_cancel_fired", 1)
+		if steps := saslpeer.Steps(lastOf(adv.authMechs)); steps > 0 {
+			c.Count("init_cancel_fired_multi_step_mechanism", 1)
+		}
+		for _, e := range log[min(cancelAtDelivered, len(log)):] {
+			c.Count("init_actions_delivered_after_cancel", 1)
+			if e.Carrier == "success" {
+				c.Count("init_success_delivered_after_cancel", 1)
+				if e.Empty {
+					c.Count("init_bare_success_delivered_after_cancel", 1)
+				}
+			}
+		}
 	}
 	mech := ""
 	if len(adv.authMechs) > 0 {
@@ -1355,6 +1432,8 @@ func Prop() *core.Prop {
 		"init_accept_PLAIN", "init_accept_SCRAM-SHA-1", "init_accept_SCRAM-SHA-256",
 		"init_accept_SCRAM-SHA-1-PLUS", "init_accept_SCRAM-SHA-256-PLUS",
 		"init_channel_binding_matched", "recv_accept_PLAIN", "recv_perm_true", "recv_perm_false",
+		"init_cancel_cases_no_deadline_transport", "init_cancel_cases_deadline_transport", "init_cancel_fired",
+		"init_cancel_fired_multi_step_mechanism",
 	}
 	for _, k := range initAlphabet {
 		req = append(req, "init_action_"+k)
